@@ -19,6 +19,10 @@ def chk(pid, text, note, tech, ref=None):
 
 OVERLAY_NOTE = " The instrumented build (sync/exec shims, controlled map iteration) is conformance-replayed against the plain build on every run."
 
+chk("C01",
+    "Bounded-exhaustive robustness exploration on five input channels (workflow file, local action metadata, local reusable workflow, repository actionlint.yaml, -config-file): every value and key position of the channel's seeds (for workflows: 4 seeds that populate every key of the syntax) x ~115 YAML fragments (every node kind, explicit !!float/!!int/!!bool/!!null/!!str/!!binary/!!timestamp/custom tags with arbitrary text, anchors, aliases, merge keys, nesting to depth 5000, invalid UTF-8, NUL, block forms), all byte strings of length <=2 on every channel, and all expression token sequences / character strings up to length 3 (thorough 4, plus all pairs of fragments in sibling positions) inside ${{ }} and bare if: through the whole Linter; oracle: no panic (recovered in-process), result is diagnostics xor fatal error, termination under a 120 s watchdog; unrecoverable runtime crashes of a worker are attributed through a progress file.",
+    "The universal claim over all byte strings <= 64 KiB is out of reach of enumeration: covered is every (position x node kind x tag) combination, their sibling pairs, and all tiny files. yaml.v3 is explored only as far as these inputs drive it. A hang is a case running > 120 s." + OVERLAY_NOTE,
+    "exhaustive enumeration of (channel, position, fragment) and of all short byte/token strings; crash/hang oracle")
 chk("C02",
     "Model checking of output determinism on the real code with every source of nondeterminism under explorer control: (1) every range-over-map site of package actionlint (70, rewritten by the overlay) is a choice point; for a collision corpus (same-position and several-candidate diagnostics) all executions with <=2 (thorough 3) non-identity iteration orders and for every workflow under testdata/examples|ok|err all executions with <=1 (thorough 2) must print the bytes of the identity execution; (2) multi-file LintFiles runs sharing broken callees: all interleavings up to 2 (thorough 3) preemptions x semaphore size {1,2} must print identical bytes; (3) all call histories up to depth 2 (thorough 3) on a reused Linter answer like a fresh one.",
     "Map iteration inside third-party packages is not controlled; GOMAXPROCS and repetition are covered only through interleavings/iteration orders under data-race freedom; permutation menu for maps with more than 4 keys is identity/reverse/rotations." + OVERLAY_NOTE,
